@@ -103,7 +103,7 @@ class C05(Check):
         "2-5 concurrent users of one ECU client: callers with 1-4 requests each (unique data identifier per request, reply echoes it with a tag), optionally the "
         "cyclic tester-present worker (interval 0.05-1 s), a reconnect() caller, a wait_for_ecu() caller; arrival offsets 0-2 s; reply script per transmission "
         "{immediate, slow, responsePending x2 / x7 then final, never, late (after the timeout), connection error on write / on read}; max_retry 0-2; one optional "
-        "cancellation of a caller at a virtual instant; 20 % of the runs on the real tcp-lines transport over SimNet. non-trivial = at least two tasks wanted the "
+        "cancellation of a caller at a virtual instant; 25 % of the runs on a real transport over SimNet (tcp-lines, HSFZ or DoIP with a gateway model: each adds its own mutex and reader task). non-trivial = at least two tasks wanted the "
         "client at the same time; distinct = sequence of (actor class, event class) on the wire."
     )
     assumptions = [
@@ -113,7 +113,7 @@ class C05(Check):
     ]
     components = {
         "ECU / UDSClient (mutex, _request, request_unsafe, reconnect, tester-present worker, wait_for_ecu), BaseTransport.reconnect": "real",
-        "transport": "ScriptTransport (existing BaseTransport seam) or real TCPLinesTransport on SimNet",
+        "transport": "ScriptTransport (existing BaseTransport seam) or real TCPLinesTransport / HSFZTransport / DoIPTransport on SimNet",
         "peer": "stub responder model",
     }
     shrink_lists = ["callers", "callers.0.reqs", "callers.1.reqs", "callers.2.reqs", "callers.3.reqs"]
@@ -127,7 +127,7 @@ class C05(Check):
     def gen(self, seed: int, index: int, tier: str) -> dict[str, Any]:
         rng = rng_for(seed, "C05", index)
         plan: dict[str, Any] = {"prop": "C05", "index": index}
-        plan["stack"] = rng.random() < 0.2
+        plan["stack"] = rng.choice(["tcp-lines", "hsfz", "doip"]) if rng.random() < 0.25 else None
         n = rng.choice([1, 2, 2, 3, 4])
         callers = []
         benign = rng.random() < 0.3
@@ -150,7 +150,7 @@ class C05(Check):
     def simplify(self, plan: dict[str, Any]) -> Any:
         import copy
 
-        for key, val in (("stack", False), ("tp", None), ("reconnect_at", None), ("wait_at", None), ("cancel", None)):
+        for key, val in (("stack", None), ("tp", None), ("reconnect_at", None), ("wait_at", None), ("cancel", None)):
             if plan.get(key) != val:
                 p = copy.deepcopy(plan)
                 p[key] = val
@@ -221,9 +221,66 @@ class C05(Check):
                     except ConnectionError:
                         pass
 
-                net.listen(("tcp", "ecu", 1), handle)
-                cls = probed(TCPLinesTransport, rec)
-                transport: Any = await cls.connect("tcp-lines://ecu:1")
+                if plan["stack"] in ("hsfz", "doip"):
+                    from simcheck.c08 import _DoIP, _HSFZ
+                    from gallia.transports.doip import DoIPTransport
+                    from gallia.transports.hsfz import HSFZTransport
+
+                    proto: Any = _DoIP(0x0E00, 0x1D, 3) if plan["stack"] == "doip" else _HSFZ(0xF4, 0x10)
+
+                    class GwShim:
+                        requests: list[bytes] = []
+
+                    async def gw_handle(reader: asyncio.StreamReader, writer: asyncio.StreamWriter) -> None:
+                        shim = GwShim()
+                        shim.requests = []
+
+                        def feed(item: Any) -> None:
+                            tr = writer.transport
+                            if tr.is_closing():
+                                return
+                            if isinstance(item, BaseException):
+                                conn = tr.conn  # type: ignore[attr-defined]
+                                conn.s._closing = True
+                                conn.s2c.drop_pending()
+                                loop.call_soon(conn.s._connection_lost, None)
+                                loop.call_later(0.0003, conn.c._connection_lost, ConnectionResetError(104, "reset"))
+                            else:
+                                writer.write(proto.build({"f": "data_raw", "payload": item}, shim))
+
+                        buf = b""
+                        try:
+                            while True:
+                                chunk = await reader.read(65536)
+                                if not chunk:
+                                    break
+                                buf += chunk
+                                while True:
+                                    frame, used = proto.parse(buf)
+                                    if frame is None:
+                                        break
+                                    buf = buf[used:]
+                                    if frame["kind"] == "activation":
+                                        writer.write(proto.build({"f": "act", "code": 0x10}, shim))
+                                    elif frame["kind"] == "data":
+                                        shim.requests.append(frame["payload"])
+                                        writer.write(proto.build({"f": "ack", "req": len(shim.requests) - 1}, shim))
+                                        resp.react(frame["payload"], feed, raise_write=False)
+                        except ConnectionError:
+                            pass
+
+                    if plan["stack"] == "doip":
+                        net.listen(("tcp", "ecu", 13400), gw_handle)
+                        cls = probed(DoIPTransport, rec)
+                        transport: Any = await cls.connect("doip://ecu:13400?src_addr=0x0e00&target_addr=0x1d&activation_type=0x00")
+                    else:
+                        net.listen(("tcp", "ecu", 6801), gw_handle)
+                        cls = probed(HSFZTransport, rec)
+                        transport = await cls.connect("hsfz://ecu:6801?src_addr=0xf4&dst_addr=0x10&ack_timeout=1000")
+                else:
+                    net.listen(("tcp", "ecu", 1), handle)
+                    cls = probed(TCPLinesTransport, rec)
+                    transport = await cls.connect("tcp-lines://ecu:1")
             else:
                 target = SimTarget("tcp-lines://ecu:1", resp)
                 resp.rec = rec
@@ -392,7 +449,9 @@ class C05(Check):
                 tok = f"{cls}:{e[3]}"
                 if not toks or toks[-1] != tok:
                     toks.append(tok)
-        res["shape"] = ("S|" if plan["stack"] else "A|") + ",".join(toks[:60])
+        res["shape"] = (f"{plan['stack']}|" if plan["stack"] else "A|") + ",".join(toks[:60])
+        if plan["stack"]:
+            bump(res["faults"], "full_stack_" + plan["stack"])
         res["nontrivial"] = overlap > 0
         if overlap:
             bump(res["probes"], "callers_overlapped", overlap)
